@@ -90,7 +90,7 @@ ROUND6 = {
     "C06": " Also keys-only 0.5.10/0.5.11 streams that store prefixes.",
     "C08": " Also prefix keys of 9..63 bytes followed by a separator byte below 0x10.",
     "C11": " Also queries that extend an indexed key by a 40-byte tail under the monitor.",
-    "C12": " Also prefix keys of 9..63 bytes followed by a separator byte below 0x10.",
+    "C12": " Also prefix keys of 9..63 bytes followed by a separator byte below 0x10, and shared runs of 2047..40000 bytes in front of a 257-bit node (refused only beyond the documented key length).",
     "C13": " Also while an unrelated trie that stores prefixes is built after the four levels.",
     "C15": " A result of Encode stays intact while the encoder is used again.",
     "C16": " Also when big-endian encoders for the element types are requested between building and NewEmpty.",
